@@ -186,9 +186,6 @@ def transform2call(var):
 
 def check_risk(node):
     description = "Potential XSS on mark_safe function."
-    if not node.args:
-        # mark_safe() / mark_safe(s=x): no positional argument to inspect
-        return None
     xss_var = node.args[0]
 
     secure = False
@@ -274,6 +271,9 @@ def django_mark_safe(context):
             "SafeBytes",
         ]
         if context.call_function_name in affected_functions:
+            if not context.node.args:
+                # mark_safe() / mark_safe(s=x): no positional argument
+                return None
             xss = context.node.args[0]
             if not isinstance(xss, ast.Str):
                 return check_risk(context.node)
